@@ -220,8 +220,9 @@ Fixpoint run (s : st) (ls : list label) : option (st * list event) :=
 (* ---------------------------------------------------------------- declarative specification
    Everything below is a function of the trace alone. *)
 
+(* the start-up batch (Prepare is called once, so at most one EPrepared occurs) *)
 Fixpoint prepared (tr : list event) : list ev :=
-  match tr with [] => [] | EPrepared b :: _ => b | _ :: tr' => prepared tr' end.
+  match tr with [] => [] | EPrepared b :: tr' => b ++ prepared tr' | _ :: tr' => prepared tr' end.
 
 Fixpoint recvs (tr : list event) : list ev :=
   match tr with [] => [] | ERecv e :: tr' => e :: recvs tr' | _ :: tr' => recvs tr' end.
@@ -247,6 +248,6 @@ Definition stream (tr : list event) : list ev := prepared tr ++ recvs tr.
 (* number of handler calls in progress at the end of the trace *)
 Definition in_flight (tr : list event) : nat := length (begins tr) - length (ends tr).
 
-(* the loop touches the handler only between these two events *)
-Definition handler_activity (e : event) : bool :=
-  match e with ELaunch _ | EBegin _ | EEnd _ | EDone => true | _ => false end.
+(* what happens after Start has returned *)
+Fixpoint after_return (tr : list event) : list event :=
+  match tr with [] => [] | EReturn :: tr' => tr' | _ :: tr' => after_return tr' end.
